@@ -1,7 +1,7 @@
 import ModelF.Tensors
 import Driver.Proto
 /-! driver ops for K14–K19 (`pydrex.tensors`); all op names start with `t_` -/
-namespace Ops.Tensors
+namespace Ops.TensorsCore
 open ModelF ModelF.Tensors Proto
 
 /-- force the 81 entries once -/
@@ -65,4 +65,4 @@ def handle (toks : List String) : Option String :=
     some (fmtFs [a, b, c])
   | _ => none
 
-end Ops.Tensors
+end Ops.TensorsCore
